@@ -39,12 +39,18 @@ theorem winv_handOut_leave {cfg : Cfg} {s t : State} (hI : WInv s) (j : Nat) (x 
 theorem winv_step {cfg : Cfg} (hgood : Good cfg) {s s' : State} (a : Action) (hI : WInv s) (h : step cfg s a = some s') : WInv s' := by
   obtain ⟨_, _, hgB, hgT, hgR⟩ := hgood
   cases a with
+  | closeDC =>
+    simp only [step] at h
+    split at h
+    · cases h
+    · cases h; exact winv_same hI rfl rfl rfl rfl rfl rfl rfl rfl
   | start i =>
     simp only [step, markDeadCfg_good hgR, hgB, hgT, if_true] at h
     split at h
     · rename_i x hx
       split at h
-      · cases h; exact winv_setPc_nokey hI i x _ hx rfl
+      · cases h
+        cases hcl : s.closed <;> exact winv_setPc_nokey hI i x _ hx (by simp [hcl, pcKey])
       · cases h
     · cases h
   | enter i =>
@@ -170,6 +176,11 @@ theorem winv_step {cfg : Cfg} (hgood : Good cfg) {s s' : State} (a : Action) (hI
                 winv_same hI rfl rfl rfl rfl rfl rfl rfl rfl
               exact winv_setPc_nokey hI1 i x _ hx rfl
             · cases h
+          | dc =>
+            simp only at h
+            split at h
+            · cases h; exact winv_setPc_nokey hI i x _ hx rfl
+            · cases h
         · cases h
       · cases h
     · cases h
@@ -200,6 +211,16 @@ theorem winv_step {cfg : Cfg} (hgood : Good cfg) {s s' : State} (a : Action) (hI
               subst this; exact hxk
           · cases h
         | ctx =>
+          simp only at h
+          split at h
+          · cases h
+            apply winv_pc hI i x { x with pc := .giveup k .ctx } hx
+            · intro k' g' h'; cases h'
+            · intro k' h'
+              have : k' = k := by simpa [pcKey] using h'.symm
+              subst this; exact hxk
+          · cases h
+        | dc =>
           simp only at h
           split at h
           · cases h
